@@ -145,6 +145,67 @@ fn ocf_marks(bytes: &[u8]) -> Vec<usize> {
     m
 }
 
+/// every byte position of the framing varints of the header (metadata map) and the first 40 bytes of
+/// every block (count, size and the first record bytes): cut positions that are always exercised
+fn ocf_must(bytes: &[u8]) -> Vec<usize> {
+    let mut m = vec![];
+    let mut pos = 4usize;
+    // header metadata map: blocks of (count [size] (keylen key vallen val)*) until count 0
+    'map: loop {
+        let s0 = pos;
+        let Some(mut cnt) = varint(bytes, &mut pos) else { return m };
+        m.extend(s0..=pos);
+        if cnt == 0 {
+            break 'map;
+        }
+        if cnt < 0 {
+            let s1 = pos;
+            if varint(bytes, &mut pos).is_none() {
+                return m;
+            }
+            m.extend(s1..=pos);
+            cnt = -cnt;
+        }
+        for _ in 0..(2 * cnt) {
+            let s1 = pos;
+            let Some(len) = varint(bytes, &mut pos) else { return m };
+            m.extend(s1..=pos);
+            if len < 0 || pos + len as usize > bytes.len() {
+                return m;
+            }
+            pos += len as usize;
+        }
+    }
+    pos += 16;
+    while pos < bytes.len() {
+        let start = pos;
+        m.extend(start..(start + 40).min(bytes.len()));
+        let Some(_c) = varint(bytes, &mut pos) else { break };
+        let Some(size) = varint(bytes, &mut pos) else { break };
+        if size < 0 || pos + size as usize + 16 > bytes.len() {
+            break;
+        }
+        pos += size as usize;
+        // the sync marker and the step to the next block
+        m.extend(pos..=(pos + 16).min(bytes.len()));
+        pos += 16;
+    }
+    m
+}
+
+/// an OCF whose framing varints have the interesting encodings (leading 0x80 bytes, ...)
+fn ocf_varint_inp(name: &str, bytes: Vec<u8>, rows: usize) -> Inp {
+    let mut i = ocf_inp(name, bytes);
+    i.must = ocf_must(&i.bytes);
+    if rows > 1000 {
+        i.batch_sizes = Some(vec![1024]);
+        i.lean = true;
+    } else {
+        i.batch_sizes = Some(vec![1, 3, 1024]);
+    }
+    i
+}
+
 fn ocf_inp(name: &str, bytes: Vec<u8>) -> Inp {
     Inp {
         fmt: "avro-ocf",
@@ -152,7 +213,7 @@ fn ocf_inp(name: &str, bytes: Vec<u8>) -> Inp {
         n: bytes.len(),
         marks: ocf_marks(&bytes),
         bytes,
-        bodies: vec![],
+        bodies: vec![], must: vec![], batch_sizes: None, lean: false,
         cfg: Cfg::AvroOcf,
         uses_bs: true,
         allow_empty: false,
@@ -209,6 +270,83 @@ fn nested_batches() -> (Arc<Schema>, Vec<RecordBatch>) {
     ]));
     let b = RecordBatch::try_new(schema.clone(), vec![Arc::new(list), Arc::new(BinaryArray::from(vec![Some(&b"\x00\x01"[..]), None, Some(&b""[..])]))]).unwrap();
     (schema, vec![b.clone(), b.slice(1, 2)])
+}
+
+/// Inputs whose framing varints hit the encodings with leading 0x80 bytes: zig-zag of 64 is 0x80 0x01, of
+/// 128 is 0x80 0x02, of 8192 is 0x80 0x80 0x01, of 16384 is 0x80 0x80 0x02 (the low 7-bit groups are zero, so a
+/// decoder that tells "nothing read yet" from the accumulated value instead of the shift goes wrong when the
+/// chunk ends right behind those bytes); 63 / 65 as controls.
+fn varint_inputs(out: &mut Vec<Inp>, thorough: bool) {
+    let ls = Arc::new(Schema::new(vec![Field::new("v", DataType::Int64, false)]));
+    let longs = |vals: Vec<i64>| RecordBatch::try_new(ls.clone(), vec![Arc::new(Int64Array::from(vals))]).unwrap();
+    // one-byte values: block count = block byte size = number of rows
+    let one = |n: usize| longs((0..n).map(|i| (i % 64) as i64).collect());
+    // two-byte values (64..8191): block byte size = 2 * number of rows
+    let two = |n: usize| longs((0..n).map(|i| 64 + (i % 1000) as i64).collect());
+    let mut add = |name: &str, batches: Vec<RecordBatch>| {
+        let rows: usize = batches.iter().map(|b| b.num_rows()).sum();
+        if let Some(b) = write_ocf(&ls, &batches, None) {
+            out.push(ocf_varint_inp(name, b, rows));
+        }
+    };
+    add("vl-count64", vec![one(64)]);
+    add("vl-count63", vec![one(63)]);
+    add("vl-count65", vec![one(65)]);
+    add("vl-count128", vec![one(128)]);
+    add("vl-size64", vec![two(32)]); // 32 records in 64 bytes
+    add("vl-size128-count64", vec![two(64)]);
+    add("vl-blocks", vec![one(64), one(63), two(32), one(128), one(1)]);
+    add("vl-count8192", vec![one(8192)]);
+    add("vl-count16384", vec![one(16384)]);
+    if thorough {
+        add("vl-size8192", vec![two(4096)]);
+        add("vl-size16384-count8192", vec![two(8192)]);
+        add("vl-blocks-big", vec![one(8192), one(64), one(16384)]);
+    }
+    // string / bytes field lengths of 64 and 8192
+    let ss = Arc::new(Schema::new(vec![Field::new("s", DataType::Utf8, false), Field::new("b", DataType::Binary, false)]));
+    let s64 = "x".repeat(64);
+    let s8192 = "y".repeat(8192);
+    let strs = RecordBatch::try_new(
+        ss.clone(),
+        vec![
+            Arc::new(StringArray::from(vec![s64.as_str(), "a", s8192.as_str(), s64.as_str()])),
+            Arc::new(BinaryArray::from(vec![&[7u8; 64][..], &[1u8; 63][..], &[2u8; 65][..], &[3u8; 128][..]])),
+        ],
+    )
+    .unwrap();
+    if let Some(b) = write_ocf(&ss, &[strs.slice(0, 2), strs.slice(2, 2)], None) {
+        let mut i = ocf_varint_inp("vl-strlen", b, 4);
+        i.batch_sizes = Some(vec![1, 1024]);
+        out.push(i);
+    }
+    // the schema JSON (a header metadata value) padded to 64·n bytes through the record's doc string
+    let json_len = |bytes: &[u8]| -> Option<usize> {
+        // header: magic, map count, key length, key "avro.schema", value length
+        let mut pos = 4usize;
+        varint(bytes, &mut pos)?;
+        let k = varint(bytes, &mut pos)? as usize;
+        pos += k;
+        varint(bytes, &mut pos).map(|v| v as usize)
+    };
+    let with_doc = |doc: String| -> Option<Vec<u8>> {
+        let md = std::collections::HashMap::from([(arrow_avro::schema::AVRO_DOC_METADATA_KEY.to_string(), doc)]);
+        let schema = Schema::new_with_metadata(ls.fields().clone(), md);
+        let b = RecordBatch::try_new(Arc::new(schema.clone()), vec![Arc::new(Int64Array::from(vec![1i64, 2, 3]))]).ok()?;
+        write_ocf(&schema, &[b], None)
+    };
+    if let Some(l0) = with_doc(String::new()).and_then(|b| json_len(&b)) {
+        for target in [128usize, 192, 8192, 16384] {
+            if target < l0 {
+                continue;
+            }
+            if let Some(bytes) = with_doc("d".repeat(target - l0)) {
+                if json_len(&bytes) == Some(target) {
+                    out.push(ocf_varint_inp(&format!("vl-schema-json{target}"), bytes, 3));
+                }
+            }
+        }
+    }
 }
 
 // ------------------------------------------------------------------ single-object / Confluent framing
@@ -313,7 +451,7 @@ fn soe_inp(name: &str, bytes: Vec<u8>, offsets: &[usize], prefix: usize, store: 
         n: bytes.len(),
         marks,
         bytes,
-        bodies,
+        bodies, must: vec![], batch_sizes: None, lean: false,
         cfg: Cfg::AvroSoe(SoeCfg { store }),
         uses_bs: true,
         allow_empty: true,
@@ -368,6 +506,7 @@ pub fn inputs(rng: &mut Rng, thorough: bool) -> Vec<Inp> {
         out.push(ocf_inp("no-blocks", b));
     }
     out.push(ocf_inp("empty", vec![]));
+    varint_inputs(&mut out, thorough);
 
     // ---- single-object framing (Rabin fingerprint): DESIGN 5.1 example first
     let xs = Arc::new(Schema::new(vec![Field::new("x", DataType::Int64, false), Field::new("s", DataType::Utf8, false)]));
@@ -411,6 +550,16 @@ pub fn inputs(rng: &mut Rng, thorough: bool) -> Vec<Inp> {
     let sb = RecordBatch::try_new(ss.clone(), vec![Arc::new(StringArray::from(vec!["ab", "cde", ""])), Arc::new(StringArray::from(vec!["xyz", "", "w"]))]).unwrap();
     if let (Some((bytes, offs)), Some(store)) = (soe_rows(&ss, &[sb], FingerprintStrategy::Rabin), reg(&[&ss])) {
         out.push(soe_inp("two-strings", bytes, &offs, 10, store));
+    }
+    // string lengths whose varint has a leading 0x80 byte
+    let s1 = Arc::new(Schema::new(vec![Field::new("s", DataType::Utf8, false)]));
+    let w64 = "z".repeat(64);
+    let sb1 = RecordBatch::try_new(s1.clone(), vec![Arc::new(StringArray::from(vec![w64.as_str(), "q", w64.as_str()]))]).unwrap();
+    if let (Some((bytes, offs)), Some(store)) = (soe_rows(&s1, &[sb1], FingerprintStrategy::Rabin), reg(&[&s1])) {
+        let mut i = soe_inp("vl-strlen64", bytes, &offs, 10, store);
+        // every position of the prefix and the length varint of each record
+        i.must = offs.iter().flat_map(|o| (*o..*o + 13)).collect();
+        out.push(i);
     }
     // two writer schemas on one stream: schema switches take effect at flush
     if let (Some((b1, o1)), Some((b2, o2)), Some(store)) =
